@@ -256,7 +256,17 @@ func (b *Body) applyContract(v ssa.Value, con *FnContract, key string, sig *type
 			for i, n := range names {
 				if n == pn && i < len(args) {
 					found = true
-					ad := ft.addrOf(args[i])
+					target := args[i]
+					// `modifies *x` where x is an interface wrapping a pointer
+					// (json-style out parameters): the pointee is modified
+					if ai := callArgIndex(c, i); ai >= 0 {
+						if mi, ok := c.Args[ai].(*ssa.MakeInterface); ok {
+							if _, isPtr := types.Unalias(mi.X.Type()).Underlying().(*types.Pointer); isPtr {
+								target = b.val(mi.X)
+							}
+						}
+					}
+					ad := ft.addrOf(target)
 					if ad == nil {
 						ft.abstraction("modifies " + m + ": argument has no tracked address")
 						break
@@ -319,6 +329,18 @@ func (b *Body) applyContract(v ssa.Value, con *FnContract, key string, sig *type
 	}
 	if len(con.Assumes) > 0 {
 		ft.trusted[key+" (assumed clauses: "+fmt.Sprint(len(con.Assumes))+")"] = true
+	}
+	// `records e n`: the caller's ghost e holds the error this call returned,
+	// n counts the calls (so that a caller's contract can speak about "the
+	// operation was executed / what it answered")
+	if len(con.Records) == 2 && len(res) > 0 {
+		last := res[len(res)-1]
+		if ft.sortOf(last.Type) == "Iface" {
+			ft.setRegion(st, con.Records[0], last.T)
+			b.recordWrite(blk, con.Records[0], nil)
+		}
+		ft.setRegion(st, con.Records[1], A("+", ft.region(st, con.Records[1]), Int(1)))
+		b.recordWrite(blk, con.Records[1], nil)
 	}
 }
 
@@ -435,7 +457,7 @@ func (b *Body) havocReachable(a *Val, src ssa.Value, blk *ssa.BasicBlock, st Sta
 			b.recordWrite(blk, r, src)
 		}
 		n := ft.fresh("havoc", "Int")
-		ft.fact(A(">=", n, Int(0)))
+		ft.fact(And(A(">=", n, Int(0)), A("<=", n, L("281474976710656"))))
 		ft.setRegion(st, "MN", Sto(ft.region(st, "MN"), a.T, n))
 		b.recordWrite(blk, "MN", src)
 	}
@@ -621,7 +643,7 @@ func (b *Body) builtin(v ssa.Value, c *ssa.CallCommon, name string, blk *ssa.Bas
 			}
 		case *types.Map:
 			x := b.define(v, Sel(ft.region(st, "MN"), a.T))
-			ft.fact(A(">=", x.T, Int(0)))
+			ft.fact(And(A(">=", x.T, Int(0)), A("<=", x.T, L("281474976710656"))))
 		case *types.Pointer:
 			if arr, ok := types.Unalias(u.Elem()).Underlying().(*types.Array); ok {
 				b.define(v, Int(arr.Len()))
@@ -847,4 +869,16 @@ func aliasedParam(con *FnContract) string {
 		}
 	}
 	return ""
+}
+
+// callArgIndex maps an index into the argument values (receiver first for
+// method calls) to an index into c.Args, or -1 for the receiver of an invoke.
+func callArgIndex(c *ssa.CallCommon, i int) int {
+	if c.IsInvoke() {
+		return i - 1
+	}
+	if i < len(c.Args) {
+		return i
+	}
+	return -1
 }
